@@ -800,6 +800,8 @@ type ConcObs struct {
 	Expected   int64  `json:"expected_total"`
 	Exposed    int64  `json:"exposed_total"`
 	HistCount  uint64 `json:"exposed_histogram_count"`
+	ScopeMismatches int    `json:"series_with_another_scopes_labels"`
+	FirstMismatch   string `json:"first_mismatch,omitempty"`
 	Panic      string `json:"panic,omitempty"`
 }
 
@@ -813,7 +815,8 @@ func concurrentScenario(id int, r *vgen.Rand) (ob ConcObs) {
 	ctx := context.Background()
 	reg := prometheus.NewRegistry()
 	opts := []otelprom.Option{otelprom.WithRegisterer(reg)}
-	if r.Bool() {
+	scopeLabels := !r.Chance(1, 4)
+	if !scopeLabels {
 		opts = append(opts, otelprom.WithoutScopeInfo())
 	}
 	if r.Bool() {
@@ -822,65 +825,118 @@ func concurrentScenario(id int, r *vgen.Rand) (ob ConcObs) {
 	if r.Bool() {
 		opts = append(opts, otelprom.WithNamespace("ns"))
 	}
+	if r.Bool() {
+		opts = append(opts, otelprom.WithResourceAsConstantLabels(func(kv attribute.KeyValue) bool { return kv.Key == "rz.host" }))
+	}
 	exp, err := otelprom.New(opts...)
 	if err != nil {
 		ob.Panic = "New: " + err.Error()
 		return
 	}
-	mp := sdk.NewMeterProvider(sdk.WithReader(exp), sdk.WithResource(resource.NewSchemaless(attribute.String("service.name", "svc"), attribute.String("a.b", "x"), attribute.String("a_b", "y"))))
+	mp := sdk.NewMeterProvider(sdk.WithReader(exp), sdk.WithResource(resource.NewSchemaless(attribute.String("service.name", "svc"), attribute.String("a.b", "x"), attribute.String("a_b", "y"), attribute.String("rz.host", "h1"))))
 	defer mp.Shutdown(ctx)
-	m := mp.Meter("conc", metric.WithInstrumentationVersion("v1"), metric.WithInstrumentationAttributes(attribute.Int("shard", id)))
-	c, _ := m.Int64Counter("conc.requests", metric.WithUnit("1"))
-	h, _ := m.Float64Histogram("conc.latency", metric.WithUnit("ms"))
-	u, _ := m.Int64UpDownCounter("conc.inflight")
+	// two or three scopes with different names AND versions; every instrument name says which scope it belongs to
+	nScopes := 2 + r.Intn(2)
+	type scopeInst struct {
+		c metric.Int64Counter
+		h metric.Float64Histogram
+		u metric.Int64UpDownCounter
+	}
 	var obsv atomic.Int64
-	m.Int64ObservableGauge("conc.gauge", metric.WithInt64Callback(func(_ context.Context, o metric.Int64Observer) error {
-		o.Observe(obsv.Load(), metric.WithAttributes(attribute.String("k", "v")))
-		return nil
-	}))
+	insts := make([]scopeInst, nScopes)
+	for k := 0; k < nScopes; k++ {
+		m := mp.Meter(fmt.Sprintf("conc-%d", k), metric.WithInstrumentationVersion(fmt.Sprintf("v%d", k)), metric.WithInstrumentationAttributes(attribute.Int("shard", k)))
+		insts[k].c, _ = m.Int64Counter(fmt.Sprintf("conc.s%d.requests", k), metric.WithUnit("1"))
+		insts[k].h, _ = m.Float64Histogram(fmt.Sprintf("conc.s%d.latency", k), metric.WithUnit("ms"))
+		insts[k].u, _ = m.Int64UpDownCounter(fmt.Sprintf("conc.s%d.inflight", k))
+		m.Int64ObservableGauge(fmt.Sprintf("conc.s%d.gauge", k), metric.WithInt64Callback(func(_ context.Context, o metric.Int64Observer) error {
+			o.Observe(obsv.Load(), metric.WithAttributes(attribute.String("k", "v")))
+			return nil
+		}))
+	}
 	sets := []attribute.Set{attribute.NewSet(), attribute.NewSet(attribute.String("a.b", "1"), attribute.String("a_b", "2")), attribute.NewSet(attribute.Int("zid", 1))}
-	const writers, iters, scrapers, scrapes = 4, 300, 3, 15
-	var wg sync.WaitGroup
 	var mu sync.Mutex
+	// every series of a family named after scope k must carry scope k's labels
+	checkScopes := func(mfs []*dto.MetricFamily) {
+		if !scopeLabels {
+			return
+		}
+		for _, mf := range mfs {
+			for k := 0; k < nScopes; k++ {
+				if !strings.Contains(mf.GetName(), fmt.Sprintf("conc.s%d.", k)) && !strings.Contains(mf.GetName(), fmt.Sprintf("conc_s%d_", k)) {
+					continue
+				}
+				for _, mm := range mf.GetMetric() {
+					var sn, sv string
+					for _, lp := range mm.GetLabel() {
+						switch lp.GetName() {
+						case "otel_scope_name":
+							sn = lp.GetValue()
+						case "otel_scope_version":
+							sv = lp.GetValue()
+						}
+					}
+					if sn != fmt.Sprintf("conc-%d", k) || sv != fmt.Sprintf("v%d", k) {
+						mu.Lock()
+						ob.ScopeMismatches++
+						if ob.FirstMismatch == "" {
+							ob.FirstMismatch = fmt.Sprintf("family %s (scope conc-%d v%d) has a series labelled otel_scope_name=%q otel_scope_version=%q", mf.GetName(), k, k, sn, sv)
+						}
+						mu.Unlock()
+					}
+				}
+			}
+		}
+	}
+	gather := func() []*dto.MetricFamily {
+		mfs, gerr := reg.Gather()
+		if gerr != nil {
+			mu.Lock()
+			ob.GatherErrs++
+			if ob.FirstErr == "" {
+				ob.FirstErr = gerr.Error()
+			}
+			mu.Unlock()
+		}
+		checkScopes(mfs)
+		return mfs
+	}
+	for k := range insts { // something to expose, then a warm-up scrape (the exporter fills its caches on the first one)
+		insts[k].c.Add(ctx, 0)
+	}
+	gather()
+	const writers, iters, scrapers, scrapes = 4, 300, 4, 15
+	var wg sync.WaitGroup
 	for g := 0; g < writers; g++ {
 		wg.Add(1)
 		go func(g int) {
 			defer wg.Done()
 			for i := 0; i < iters; i++ {
 				set := sets[(g+i)%len(sets)]
-				c.Add(ctx, 1, metric.WithAttributeSet(set))
-				h.Record(ctx, float64(i%7), metric.WithAttributeSet(set))
-				u.Add(ctx, int64(1-2*(i%2)), metric.WithAttributeSet(set))
+				for k := range insts {
+					insts[k].c.Add(ctx, 1, metric.WithAttributeSet(set))
+					insts[k].h.Record(ctx, float64(i%7), metric.WithAttributeSet(set))
+					insts[k].u.Add(ctx, int64(1-2*(i%2)), metric.WithAttributeSet(set))
+				}
 				obsv.Add(1)
 			}
 		}(g)
 	}
+	start := make(chan struct{})
 	for g := 0; g < scrapers; g++ {
 		wg.Add(1)
 		go func() {
 			defer wg.Done()
+			<-start // the scrapes overlap each other (and the measurements)
 			for i := 0; i < scrapes; i++ {
-				if _, gerr := reg.Gather(); gerr != nil {
-					mu.Lock()
-					ob.GatherErrs++
-					if ob.FirstErr == "" {
-						ob.FirstErr = gerr.Error()
-					}
-					mu.Unlock()
-				}
+				gather()
 			}
 		}()
 	}
+	close(start)
 	wg.Wait()
-	ob.Expected = writers * iters
-	mfs, gerr := reg.Gather()
-	if gerr != nil {
-		ob.GatherErrs++
-		if ob.FirstErr == "" {
-			ob.FirstErr = gerr.Error()
-		}
-	}
-	for _, mf := range mfs {
+	ob.Expected = int64(writers * iters * nScopes)
+	for _, mf := range gather() {
 		for _, mm := range mf.GetMetric() {
 			if mm.Counter != nil && strings.Contains(mf.GetName(), "conc") {
 				ob.Exposed += int64(mm.GetCounter().GetValue())
@@ -969,6 +1025,8 @@ func runConcurrent(w *vgen.Writer, exe, dir string, n int, seed uint64, race boo
 					w.Violation("panic during concurrent scrapes and measurements: "+ob.Panic, desc)
 				case ob.GatherErrs > 0:
 					w.Violation("Registry.Gather failed while measurements were being recorded: "+ob.FirstErr, desc)
+				case ob.ScopeMismatches > 0:
+					w.Violation("during concurrent scrapes a series carried another scope's labels: "+ob.FirstMismatch, desc)
 				case ob.Exposed != ob.Expected || ob.HistCount != uint64(ob.Expected):
 					w.Violation("after concurrent scrapes the exposed totals differ from what was recorded", desc)
 				}
